@@ -54,6 +54,10 @@ def values_at(axis, level, n):
         if level <= 2:
             out.append([{'mods': [['Oxidation', 1]], 'targets': ['M']}, {'mods': [['1.5', 1]], 'targets': ['K']}])
             out.append([{'mods': [['Oxidation', 1], ['Methyl', 1]], 'targets': ['K', 'N-Term']}])
+            # a rule whose modification carries a multiplier (composition-bearing and plain shift)
+            out.append([{'mods': [['Acetyl', 2]], 'targets': ['K']}])
+            out.append([{'mods': [['1.5', 3]], 'targets': ['K', 'N-Term']}])
+            out.append([{'mods': [['Formula:C2H2O', 2], ['10', 1]], 'targets': ['M', 'K']}])
         return out
     if axis == 'isotope':
         return ISOTOPES if level <= 2 else ISOTOPES[:2]
@@ -210,6 +214,23 @@ def check(case, ctx):
         extra = {'ion': ion, 'charge': z, 'labile': bool(P.get('labile')), 'isotope_labels': P.get('isotope'),
                  'adducts': kw_mass.get('charge_adducts', P.get('adducts'))}
         m = agree(ctx, p, s, kw_mass, kw_comp, mono, tol, 'mass', extra)
+        # the same questions asked of ONE parsed object in turn (composition, mass, composition again): the answers are
+        # those for the text, and the object still writes the text
+        if m is not None and len(slots) <= 2:
+            st0, obj = lib.call(p.parse, s)
+            if st0 == 'ok':
+                b1 = lib.call(lambda: p.comp_mass(obj, **kw_comp))
+                a1 = lib.call(p.mass, obj, monoisotopic=mono, **kw_mass)
+                b2 = lib.call(lambda: p.comp_mass(obj, **kw_comp))
+                a2 = lib.call(p.mass, obj, monoisotopic=mono, **kw_mass)
+                ctx.evals += 4
+                if a1[0] != 'ok' or a2[0] != 'ok' or not lib.close(a1[1], m, 1e-9) or not lib.close(a2[1], m, 1e-9):
+                    ctx.fail('reused-object-mass', m, [_sv(a1), _sv(a2)], call=['comp_mass, mass, comp_mass, mass', s, kw_mass], **extra)
+                elif b1[0] != b2[0] or (b1[0] == 'ok' and (b1[1][0] != b2[1][0] or not lib.close(b1[1][1], b2[1][1], 1e-9))):
+                    ctx.fail('reused-object-composition', _sv(b1), _sv(b2), call=['comp_mass, mass, comp_mass', s, kw_comp], **extra)
+                st9, s9 = lib.call(obj.serialize)
+                if st9 != 'ok' or s9 != p.parse(s).serialize():
+                    ctx.fail('reused-object-changed', p.parse(s).serialize(), s9, call=['comp_mass, mass', s, kw_mass], **extra)
         # independent anchor at low levels (no isotope labels: their reference lives in C12)
         if m is not None and len(slots) <= 1 and 'isotope' not in slots and ion in ('p', 'n'):
             ref = refmass.ref_mass(P, charge=kw_mass.get('charge'), ion=ion, mono=mono,
